@@ -34,6 +34,9 @@ NoteWith(k, refs) ==
                 \o (IF Len(refs) >= 1 THEN <<Ref(k, refs[1], Name(k) \o "r1"), LB("P", Name(k) \o "p1", <<>>)>> ELSE <<>>)
                 \o (IF Len(refs) >= 2 THEN <<Ref(k, refs[2], Name(k) \o "r2")>> ELSE <<>>)]
 
+\* a stub: a note without heading whose whole body is one block reference
+Stub(k, t) == [title |-> "", blocks |-> <<Ref(k, t, Name(k) \o "s")>>]
+
 RefLists == {<<>>} \cup {<<t>> : t \in Targets} \cup {<<t1, t2>> : t1 \in Targets, t2 \in Targets}
 
 VARIABLES docs, depth, done
@@ -46,6 +49,11 @@ Lib(r1, r2, r3) == <<[key |-> N1, note |-> NoteWith(N1, r1)], [key |-> N2, note 
 Next == /\ ~done
         /\ \/ \E r1, r2, r3 \in RefLists, d \in 0..MaxDepth :
                 docs' = Lib(r1, r2, r3) /\ depth' = d /\ done' = TRUE
+           \* notes 2 and 3 are stubs (pointing anywhere, also at themselves and at each other): a hop through
+           \* a stub costs depth like any other
+           \/ \E r1 \in RefLists, s2, s3 \in Targets, d \in 0..MaxDepth :
+                /\ docs' = <<[key |-> N1, note |-> NoteWith(N1, r1)], [key |-> N2, note |-> Stub(N2, s2)], [key |-> N3, note |-> Stub(N3, s3)]>>
+                /\ depth' = d /\ done' = TRUE
            \/ \E d \in DeepDepths, shape \in {"self", "chain", "cycle2", "cycle3"} :
                 /\ docs' = CASE shape = "self" -> Lib(<<N1>>, <<>>, <<>>)
                              [] shape = "chain" -> Lib(<<N2>>, <<N3>>, <<>>)
